@@ -30,9 +30,11 @@ import (
 	"github.com/gorilla/websocket"
 	"github.com/vektah/gqlparser/v2/ast"
 	"github.com/vektah/gqlparser/v2/gqlerror"
+	"github.com/vektah/gqlparser/v2/parser"
 
 	"verifsim/core"
 	"verifsim/execsim"
+	"verifsim/ops"
 	"verifsim/parsers"
 	"verifsim/probereg"
 	"verifsim/refexec"
@@ -63,6 +65,10 @@ type opState struct {
 	stopSent  bool
 	isStream  bool
 	wantFrame bool // the server must answer this start (it was sent on an acknowledged connection)
+	query     string
+	opName    string
+	vars      map[string]any
+	echo      string // value of the operation's own $b variable, which its result must carry
 }
 
 type cframe struct {
@@ -94,13 +100,28 @@ func Run(rc *core.RunCtx) {
 	u := uni.New(w, v, plan)
 	v.SetBlobHook(execsim.BlobHook)
 	u.Park = t.Bool(1, 3, "park-resolvers")
+	u.Custom = map[string]func(ctx context.Context, args []reflect.Value) (any, error){
+		// echo returns its argument, so that an operation's variables are visible in its result
+		"Query.echo": func(ctx context.Context, args []reflect.Value) (any, error) {
+			b := args[1]
+			if b.Kind() == reflect.Ptr {
+				return b.Interface(), nil
+			}
+			p := reflect.New(b.Type())
+			p.Elem().Set(b)
+			return p.Interface(), nil
+		},
+	}
 	// serialisation-time panic of a subscription event: the custom scalar of events.blob panics
 	// in MarshalGQL (only operations that select it are affected)
 	// (inside a subscription event the field path does not include the root field)
 	plan.Faults = map[string]refexec.Kind{"events.blob": refexec.KMarshalPanic, "blob": refexec.KMarshalPanic}
 	// which oracles apply: C11 = protocol monitor; C04 = containment of failures; C05 = nothing
 	// left running
-	protocol := rc.Property != "C05"
+	protocol := rc.Property != "C05" && rc.Property != "C07"
+	// C07 = every result carries the content of its own operation (no leak between operations
+	// sharing the connection); also part of C11's "receives its results"
+	content := rc.Property == "C07" || rc.Property == "C11"
 
 	transportWS := t.Choose(2, "proto") == 1
 	proto := "graphql-ws"
@@ -532,7 +553,23 @@ func Run(rc *core.RunCtx) {
 			nextID++
 			o := &opState{id: id, startSeq: seq.Add(1), wantFrame: initSent}
 			var query string
-			switch t.Choose(10, "opkind") {
+			var payloadExtra map[string]any
+			switch t.Choose(13, "opkind") {
+			case 10, 11:
+				// the operation's own variables show in its result
+				o.kind = "query-vars"
+				o.echo = "w" + id
+				o.vars = map[string]any{"b": o.echo, "t": nextID%2 == 0}
+				query = fmt.Sprintf("query Op%s($b: Blob!, $t: Boolean!) { echo(b: $b) maybe @include(if: $t) }", id)
+				payloadExtra = map[string]any{"variables": o.vars}
+			case 12:
+				// several operations in one document, selected by operationName
+				o.kind = "query-named"
+				o.echo = "n" + id
+				o.vars = map[string]any{"b": o.echo}
+				o.opName = "B_Op" + id
+				query = fmt.Sprintf("query A_Op%s { maybe } query B_Op%s($b: Blob!) { echo(b: $b) }", id, id)
+				payloadExtra = map[string]any{"variables": o.vars, "operationName": o.opName}
 			case 8:
 				o.kind, o.isStream = "sub-opdirective-panic", true
 				query = fmt.Sprintf("subscription Op%s @opguard(mode:\"panic\") { ticks(n: 1) }", id)
@@ -563,7 +600,12 @@ func Run(rc *core.RunCtx) {
 			}
 			opsByID[id] = o
 			opOrder = append(opOrder, id)
-			send("start "+id+" "+o.kind, map[string]any{"type": typeStart, "id": id, "payload": map[string]any{"query": query}})
+			o.query = query
+			pl := map[string]any{"query": query}
+			for k, v := range payloadExtra {
+				pl[k] = v
+			}
+			send("start "+id+" "+o.kind, map[string]any{"type": typeStart, "id": id, "payload": pl})
 			evSig = append(evSig, "start:"+o.kind)
 		case "c-stop":
 			events++
@@ -777,6 +819,64 @@ func Run(rc *core.RunCtx) {
 		}
 	}
 	mu.Unlock()
+	if content {
+		// every result frame of a query/mutation carries the content of its own operation: the
+		// reference result of that operation alone under the same plan, and its own variables
+		env := u.Env()
+		checked := 0
+		for _, f := range conn.Frames() {
+			if f.Opcode != 1 || f.ID == "" || f.Type != dataType {
+				continue
+			}
+			o := opsByID[f.ID]
+			if o == nil {
+				continue
+			}
+			switch o.kind {
+			case "query", "mutation", "query-vars", "query-named":
+			default:
+				continue
+			}
+			p := execsim.ParseBody(string(f.Payload))
+			if p.JSONErr != "" {
+				rc.Fail("invalid-json", "result-frame", "operation %s (%s): %s: %s\n%s", o.id, o.kind, p.JSONErr, clip(string(f.Payload)), desc())
+				return
+			}
+			switch o.kind {
+			case "query", "mutation":
+				doc, perr := parser.ParseQuery(&ast.Source{Input: o.query})
+				if perr != nil || len(ops.Validate(u.Schema, doc)) > 0 {
+					rc.Fail("harness", "content-oracle", "operation %q does not validate", o.query)
+					return
+				}
+				ref := refexec.Execute(env, doc, doc.Operations[0], nil)
+				if p.Data == nil || p.Data.Canon() != ref.Data.Canon() {
+					got := "<none>"
+					if p.Data != nil {
+						got = p.Data.Canon()
+					}
+					rc.Fail("result-not-its-own", o.kind, "operation %s %q: data differs from the result of that operation alone\nexpected %s\ngot      %s\n%s", o.id, o.query, ref.Data.Canon(), got, desc())
+					return
+				}
+				if d := execsim.CompareErrs(ref.Errors, p.Errors); d != "" {
+					rc.Fail("result-not-its-own", o.kind+"-errors", "operation %s %q: %s\n%s", o.id, o.query, d, desc())
+					return
+				}
+			default:
+				var e, h *parsers.J
+				if p.Data != nil && p.Data.K == parsers.Obj {
+					e, h = p.Data.Get("echo"), p.Data.Get("maybe")
+				}
+				wantHello := o.kind == "query-vars" && o.vars["t"] == true
+				if e == nil || e.K != parsers.Str || e.S != o.echo || (h != nil) != wantHello || len(p.Data.Keys) != map[bool]int{false: 1, true: 2}[wantHello] {
+					rc.Fail("result-not-its-own", o.kind, "operation %s %q with variables %v operationName %q got %s\n%s", o.id, o.query, o.vars, o.opName, clip(string(f.Payload)), desc())
+					return
+				}
+			}
+			checked++
+		}
+		w.CountN("result_contents_checked", checked)
+	}
 	if !protocol {
 		rc.Res.Nontrivial = len(opOrder) > 0
 		rc.Res.Sig = execsim.SigOf(proto, initMode, strings.Join(evSig, ","), w.LogHash())
